@@ -178,3 +178,52 @@ func VerifH_VCodeHistory() {
 	}
 	symx.Reach("end")
 }
+
+// C19/H1b: long runs on one pair (mock sender, constant clock, window never ending, no minimum interval,
+// no expiry), every limit in a symbolic range: `attempts` verifications with the right code and hash
+// against one sent code - beyond the attempt limit every one of them is rejected, however many were
+// made; or `sends` sends in one window - beyond the per-window limit every one of them is refused.
+func VerifH_VCodeLongRuns() {
+	clock := time.Unix(1700000000, 0)
+	symx.Stub("time.Now", func() time.Time { return clock })
+	symx.Stub("github.com/pinealctx/neptune/idgen/random.MD5UUID", func() string { return "hh" })
+	sendRun := symx.Bool("sendRun")
+	limit, sendLimit := 3, 3
+	if sendRun {
+		sendLimit = symx.Int("sendLimit")
+		symx.Assume(sendLimit >= symx.Param("minSendLimit", 250) && sendLimit <= symx.Param("maxSendLimit", 300))
+	} else {
+		limit = symx.Int("verifyLimit")
+		symx.Assume(limit >= 0 && limit <= symx.Param("maxVerifyLimit", 40))
+	}
+	cfg := &Config{CacheSize: 100, Mock: true, CodeLen: 2, MaxCount: sendLimit, MaxVerifyCount: limit}
+	cfg.TTL = tex.Duration(time.Hour)
+	cfg.MinInterval = 0
+	cfg.CounterDuration = tex.Duration(time.Hour)
+	logic := NewSimpleLogic(cfg, &verifSMS{}, nil)
+	hash, err := logic.SendSMSCode("1", "23")
+	symx.Assert(err == nil && hash == "hh", "mock send succeeds")
+	if !sendRun {
+		attempts := symx.Param("attempts", 300)
+		for i := 1; i <= attempts; i++ {
+			err := logic.VerifySMSCode("1", "23", "23", hash)
+			if i <= limit {
+				symx.Assert(err == nil, "the sent code with the returned hash verifies within lifetime and attempt limit")
+			} else if i > limit+1 {
+				symx.Assert(err != nil, "once more than the configured number of attempts were made even the right code is rejected")
+			}
+		}
+		symx.Reach("verify-run")
+		return
+	}
+	sends := symx.Param("sends", 310)
+	for i := 2; i <= sends; i++ { // the first send was made above
+		_, err := logic.SendSMSCode("1", "23")
+		if i <= sendLimit {
+			symx.Assert(err == nil, "a send within interval and count limits is not refused")
+		} else if i > sendLimit+2 {
+			symx.Assert(err == ErrSendCountLimit, "sends beyond the per-window count limit are refused")
+		}
+	}
+	symx.Reach("send-run")
+}
